@@ -11,18 +11,18 @@ import (
 
 // C13 — request-scoped context never bleeds between concurrent requests.
 //
-//   R-no-escape          on request paths no request-scoped value (context, *http.Request, ResponseWriter,
-//                        Session, notification sender, per-request handler closure, request message) is stored
-//                        into an object that outlives the request (anything not allocated by the storing
-//                        function) or into a package variable
-//   R-ctx-provenance     request paths never start a fresh context (context.Background/TODO); the context
-//                        handed to the dispatcher and to user callbacks derives from the function's own context
-//   R-ctxfunc-order      HTTP context functions are folded forward over the configured slice, each receiving
-//                        the previous result; the option appends
-//   R-filter-per-request list filters are called with the handler's own ctx and a slice built for this
-//                        request; their result is not stored anywhere
-//   R-inject             values injected with context.WithValue on request paths come from the injecting
-//                        function's own parameters/receiver
+//	R-no-escape          on request paths no request-scoped value (context, *http.Request, ResponseWriter,
+//	                     Session, notification sender, per-request handler closure, request message) is stored
+//	                     into an object that outlives the request (anything not allocated by the storing
+//	                     function) or into a package variable
+//	R-ctx-provenance     request paths never start a fresh context (context.Background/TODO); the context
+//	                     handed to the dispatcher and to user callbacks derives from the function's own context
+//	R-ctxfunc-order      HTTP context functions are folded forward over the configured slice, each receiving
+//	                     the previous result; the option appends
+//	R-filter-per-request list filters are called with the handler's own ctx and a slice built for this
+//	                     request; their result is not stored anywhere
+//	R-inject             values injected with context.WithValue on request paths come from the injecting
+//	                     function's own parameters/receiver
 func init() { Registry["C13"] = checkC13 }
 
 var requestScopedTypes = map[string]bool{
